@@ -137,49 +137,69 @@ def rule_comparison(ctx):
     b = printers.display_impl(fx, "tptp", "Comparison")
     p = printers.evaluate(fx, b)
     site = ctx.site(b)
-    rows = []
-    for conds, loops, item in p.out:
-        if item[0] != "write" or item[1] == " & ":
-            continue
-        armk = tuple(c[0][2] for c in conds if c[0][0] == "arm")
-        guard = [c for c in conds if c[0][0] == "matches"]
-        # operand formatting: which projection of the pair is wrapped in Format
-        args = []
-        for a in item[2]:
-            r = repr(a)
-            if "repr_integer" in r:
-                args.append("rel:integer")
-            elif "repr_general" in r:
-                args.append("rel:general")
-            elif a[:2] == ("ctor", "Format") and "('tuple', '1'), ('tuple', '1')" in r:
-                args.append("rel:general")  # Display for Relation = repr_general
-            elif "GeneralTerm::IntegerTerm" in r:
-                args.append("operand:integer")
-            elif "GeneralTerm::SymbolicTerm" in r:
-                args.append("operand:symbolic")
-            else:
-                args.append("operand:general")
-        rows.append((armk, tuple((g[0][2], g[1]) for g in guard), item[1], tuple(args)))
-    ref = [
-        (("(GeneralTerm::IntegerTerm(_), GeneralTerm::IntegerTerm(_))", "Relation::Equal | Relation::NotEqual"), (), "{} {} {}", ("operand:integer", "rel:integer", "operand:integer")),
-        (("(GeneralTerm::IntegerTerm(_), GeneralTerm::IntegerTerm(_))", "_"), (), "{}({}, {})", ("rel:integer", "operand:integer", "operand:integer")),
-        (("(GeneralTerm::SymbolicTerm(_), GeneralTerm::SymbolicTerm(_))",), (), "{} {} {}", ("operand:symbolic", "rel:general", "operand:symbolic")),
-        (("(_, _)", "Relation::Equal | Relation::NotEqual"), (), "{} {} {}", ("operand:general", "rel:general", "operand:general")),
-        (("(_, _)", "_"), (), "{}({}, {})", ("rel:general", "operand:general", "operand:general")),
-    ]
-    names = ["int-int-equality", "int-int-order", "sym-sym-equality", "mixed-equality", "mixed-order"]
-    for i, nm in enumerate(names):
-        got = rows[i] if i < len(rows) else None
-        ctx.add("DISPATCH", "comparison:" + nm, got is not None and (got[0], got[2], got[3]) == (ref[i][0], ref[i][2], ref[i][3]), site,
-                "%s: template `%s`, arguments %s" % (nm, got[2] if got else None, got[3] if got else None), construct=got)
-    ctx.add("DISPATCH", "comparison:arms", len(rows) == 5, site, "exactly five output forms (%d)" % len(rows))
-    # the symbolic arm is guarded by Equal | NotEqual (an order between symbols must use the general predicates)
-    src = [a for m in hq.nodes(b["body"], "Match") for a in m["arms"] if hq.pat_key(a["pat"]).startswith("(GeneralTerm::SymbolicTerm")]
-    ok = len(src) == 1 and "guard" in src[0]
-    if ok:
-        g = hq.strip(src[0]["guard"])
-        ok = g.get("mac") == "matches" and sorted(hq.pat_key(q) for q in hq.or_alternatives(g["arms"][0]["pat"])) == ["Relation::Equal", "Relation::NotEqual"]
-    ctx.add("DISPATCH", "comparison:symbolic-guard", ok, site, "symbol = / != symbol only; ordered comparisons of symbols fall through to the general predicates")
+    # one specialisation of the loop body per (left term kind, relation, right term kind): the individual comparison that is written
+    def c(n, **f):
+        return ("ctor", n, tuple(sorted(f.items())))
+
+    def term(kind, side):
+        if kind == "integer":
+            return c("GeneralTerm::IntegerTerm", **{"0": ("param", "$%si" % side)})
+        if kind == "symbolic":
+            return c("GeneralTerm::SymbolicTerm", **{"0": ("param", "$%ss" % side)})
+        if kind == "variable":
+            return c("GeneralTerm::Variable", **{"0": ("param", "$%sv" % side)})
+        return c("GeneralTerm::" + kind)
+    FMT = lambda x: ("ctor", "Format", (("0", x),))
+    kinds = ["integer", "symbolic", "variable", "Infimum"]
+    gts = set(fx.variants("syntax_tree::fol::sigma_0::GeneralTerm"))
+    ctx.add("DISPATCH", "comparison:term-kinds", gts == {"Infimum", "Supremum", "FunctionConstant", "Variable", "IntegerTerm", "SymbolicTerm"}, site, "general term constructors: %s" % sorted(gts))
+    rels = fx.variants("syntax_tree::fol::sigma_0::Relation")
+    n_cases = 0
+    bad_cases = {}
+    for lk in kinds:
+        for rk in kinds:
+            for rel in rels:
+                n_cases += 1
+                ev = sym.Eval(fx, inline_depth=0)
+                L_, R_ = term(lk, "l"), term(rk, "r")
+                RELc = c("Relation::" + rel)
+                ev.loop_args = [("list", (("param", "$counter"), ("list", (L_, RELc, R_))))]
+                ev.function(b)
+                writes = [o[2] for o in ev.out if o[2][0] == "write" and o[2][1] != " & " and not o[0]]
+                eq = rel in ("Equal", "NotEqual")
+                if lk == rk == "integer":
+                    ops = (FMT(("param", "$li")), FMT(("param", "$ri")))
+                    relt = ("call", "Format::repr_integer", (FMT(RELc),))
+                    cls = "int-int-" + ("equality" if eq else "order")
+                elif lk == rk == "symbolic" and eq:
+                    ops = (FMT(("param", "$ls")), FMT(("param", "$rs")))
+                    relt = FMT(RELc)
+                    cls = "sym-sym-equality"
+                else:
+                    ops = (FMT(L_), FMT(R_))
+                    relt = FMT(RELc)
+                    cls = "mixed-" + ("equality" if eq else "order")
+                relts = {relt, ("call", "Format::repr_general", (FMT(RELc),))} if relt[0] == "ctor" else {relt}
+                ok = len(writes) == 1
+                if ok:
+                    tmpl = re.sub(r"\{\w*\}", "{}", writes[0][1])
+                    args = writes[0][2]
+                    if eq:
+                        ok = tmpl == "{} {} {}" and len(args) == 3 and args[0] == ops[0] and args[1] in relts and args[2] == ops[1]
+                    else:
+                        ok = tmpl == "{}({}, {})" and len(args) == 3 and args[0] in relts and args[1] == ops[0] and args[2] == ops[1]
+                if not ok:
+                    bad_cases.setdefault(cls, []).append((lk, rel, rk, writes[:1]))
+    for cls in ("int-int-equality", "int-int-order", "sym-sym-equality", "mixed-equality", "mixed-order"):
+        b_ = bad_cases.get(cls)
+        ctx.add("DISPATCH", "comparison:" + cls, not b_, site,
+                {"int-int-equality": "integer = / != integer: infix on the bare integer terms with the integer relation symbol",
+                 "int-int-order": "integer < <= > >= integer: $less / $lesseq / .. applied to the bare integer terms",
+                 "sym-sym-equality": "symbol = / != symbol: infix on the bare symbolic terms",
+                 "mixed-equality": "any other = / !=: infix on the terms injected into `general`",
+                 "mixed-order": "any other order comparison: the general order predicate applied to the injected terms"}[cls] + (": %s" % (b_[0],) if b_ else ""),
+                construct=b_[:3] if b_ else None)
+    ctx.floor("DISPATCH", "comparison_cases", n_cases, 96)
     # the int arm must come first (PEG-like ordered arms) and individuals() pairs consecutive terms
     ind = fx.fn("Comparison::individuals")
     nxt = [x for x in fx.body_list if x["name"] == "next" and "Comparison::individuals" in x["def_path"]]
